@@ -79,7 +79,7 @@ Theorem C18_final_state_after_raise : forall c p l1 l2 ty m, pc (final c p l1) =
 Proof. exact final_state_after_raise. Qed.
 Print Assumptions C18_final_state_after_raise.
 Example C18_final_state_after_raise_sat :
-  pc (final cfg_w (mkprog [] (ORaise 1 2) false 0 5 6) [Act (AExec Async [3] []); Wk; Wk]) = PExc 1 2.
+  pc (final cfg_w (mkprog [] (ORaise 1 2) false 0 5 6 []) [Act (AExec Async [3] []); Wk; Wk]) = PExc 1 2.
 Proof. vm_compute. reflexivity. Qed.
 
 Theorem C18_cancel_flag_iff_requested : forall c p l, cancel (final c p l) = existsb is_cancel l.
@@ -98,7 +98,7 @@ Theorem C18_never_success_when_task_raised_refuted : exists c p l,
 Proof. exact never_success_when_task_raised_refuted. Qed.
 Print Assumptions C18_never_success_when_task_raised_refuted.
 
-(* ---- results *)
+(* ---- results ([C18_results_idempotent] covers every result shape: the returned value includes the entries) *)
 Theorem C18_no_results_while_running : forall c p l, let s := final c p l in
   (pc s = PIdle \/ mid_run (pc s) = true) -> forall v, snd (do_get c s) <> GValue v.
 Proof. exact no_results_while_running. Qed.
@@ -112,10 +112,24 @@ Example C18_results_idempotent_sat : exists v,
   snd (do_get cfg_w (final cfg_w prog_w [Act (AExec Async [3] []); Wk; Wk; Wk; Wk])) = GValue (Some v) /\ nconv v = 1%nat.
 Proof. eexists. vm_compute. split; reflexivity. Qed.
 
+(* exactly once: the dictionary as a whole and, for an iterated result ({'results_list': [...]}), every entry *)
 Theorem C18_results_converted_once : forall c p l r, snd (do_get c (final c p l)) = GValue (Some r) ->
-  nconv r = if has_map c then 1%nat else 0%nat.
+  let n := if has_map c then 1%nat else 0%nat in
+  nconv r = n /\ Forall (fun e => enconv e = n) (entries r).
 Proof. exact results_converted_once. Qed.
 Print Assumptions C18_results_converted_once.
+
+(* every entry of an iterated result is converted with the mapping parameters overridden by its own iteration *)
+Theorem C18_results_list_entry_args : forall c p l r, has_map c = true ->
+  snd (do_get c (final c p l)) = GValue (Some r) ->
+  Forall (fun e => ecargs e = override (mapp (fst (do_get c (final c p l)))) (eiter e)) (entries r).
+Proof. exact results_list_entry_args. Qed.
+Print Assumptions C18_results_list_entry_args.
+Example C18_results_list_sat :
+  let l := [Act (AExec Async [3] []); Wk; Wk; Wk; Act AGet; Act AGet] in
+  map (fun e => (epay e, enconv e, ecargs e)) (match results (final cfg_list prog_list l) with Some r => entries r | None => [] end)
+  = [(1, 1%nat, [(20, Some 9); (21, None)]); (2, 1%nat, [(20, Some 4); (21, None)])].
+Proof. exact results_list_example. Qed.
 
 (* ---- the user's progress callback (current code): supplied in any way — at construction, with
    set_progress_callback, with the progress_callback keyword of execute — it changes nothing but the callback
